@@ -115,6 +115,43 @@ def run(tier, seed):
                             {"cfg": "MC_Rpc_leak", "result": "counterexample to NothingLeft with LeakOnSendError (the defect fixed by 18c56d0)"},
                             {"cfg": "MC_Rpc_noto", "result": "counterexample to NothingLeft without RemoveOnTimeout"}]
     v.cov["states"], v.cov["transitions"] = states, trans
+    # a side process runs for the whole check: a reply delivered in two pieces with a pause longer than the receiver's read timeout
+    # (hard-wired 10 s) in between, the second piece being a well-formed frame for the other outstanding call
+    import subprocess
+    stall_out = os.path.join(lib.outdir(PID), "stall.ndjson")
+    if os.path.exists(stall_out):
+        os.remove(stall_out)
+    side = subprocess.Popen([lib.build_harness(True), "rpc-stall", "11500", stall_out], cwd=lib.ROOT, stdout=subprocess.DEVNULL, stderr=subprocess.DEVNULL)
+    try:
+        return run_main(v, tier, seed, thorough, rng, states, trans, side, stall_out)
+    finally:
+        if side.poll() is None:
+            side.kill()
+
+
+def judge_stall(v, side, stall_out):
+    try:
+        side.wait(timeout=120)
+    except Exception:
+        raise lib.ToolError("the stalled-reply scenario did not finish")
+    o = lib.read_ndjson(stall_out)[0] if os.path.exists(stall_out) else {"tool_error": "no output"}
+    if "tool_error" in o:
+        raise lib.ToolError("stalled-reply scenario: " + o["tool_error"])
+    v.case("stalled reply")
+    case = {"scenario": "the reply to call a arrives in two pieces %d ms apart; the second piece is a well-formed frame for call b; then the genuine reply to b" % o["pause_ms"], "results": o["results"]}
+    ra, rb = o["results"][0]["result"], o["results"][1]["result"]
+    if rb["kind"] == "ok" and rb["got"] != "the reply to call b":
+        v.violation("a caller received a reply addressed to a different call", {**case, "call_b_got": rb["got"]})
+    if ra["kind"] == "ok" and ra["got"] != "the whole reply to call a":
+        v.violation("a caller received something else than the reply sent to it", {**case, "call_a_got": ra["got"]})
+    if ra["kind"] in ("still_running", "panic") or rb["kind"] in ("still_running", "panic"):
+        v.violation("a remote call neither returned nor failed", case)
+    if o["pending_after"] != 0:
+        v.violation("bookkeeping of finished remote calls is left behind", {**case, "outstanding_entries": o["pending_after"]})
+    v.cov["stalled_reply_scenario"] = {"call_a": ra["kind"], "call_b": rb["kind"], "still_connected": o["still_connected"]}
+
+
+def run_main(v, tier, seed, thorough, rng, states, trans, side, stall_out):
     # behaviours to execute
     one = behaviours("gen/Gen_Rpc_1.cfg", "gen_1")
     two = behaviours("gen/Gen_Rpc_2.cfg", "gen_2", simulate=f"num={1500 if thorough else 120}", seed=seed)
@@ -233,6 +270,7 @@ def run(tier, seed):
     if desync > len(obs) // 4:
         raise lib.ToolError(f"{desync} of {len(obs)} schedules could not be followed on the real node (scheduler / hooks out of step)")
     n_free = free_traces(v, thorough, seed)
+    judge_stall(v, side, stall_out)
     v.cov["traces_validated_against_impl"] = len(obs) - desync + n_free
     v.cov["schedules_not_followed"] = desync
     v.cov["rule"] = ("TLC: every interleaving of 2 callers (connection up / absent / broken) and 3 callers with up to 3 peer replies (own, duplicate, stray, late, addressed to the reply pid of another incarnation of the node); executed on the real Node: "
